@@ -5,8 +5,9 @@
      stringutil/util.go    : the tail of GetOpenFileStr (candidate list built from the string under the cursor;
                              the regular-expression extraction of that string is an oracle = an argument here)
      check_lsp_define.go   : FindOpenFileDefine; textdocument_define.go / textdocument_hover.go consumers.
-   Go iterates the candidate map in random order and sorts with an unstable sort: the model returns the SET of
-   files the code may answer (all candidates of maximal score). Assumptions: one workspace root (mainDir set,
+   Before fixes/C09-deterministic-order.diff Go iterates the candidate map in random order and sorts with an unstable
+   sort: the model returns the SET of files the code may answer (all candidates of maximal score); the repaired code
+   (order_fixed cfg = true) answers the best-scored candidate with the least path: a singleton. Assumptions: one workspace root (mainDir set,
    no sub-directories, no client ext path); first analysis pass (checkTerm = first). *)
 From Coq Require Import List NArith ZArith Bool.
 From LH Require Import Base.Bytes Model.FileIndex.
@@ -104,7 +105,10 @@ Record rcfg := mk_rcfg {
   exact_mode : bool;                  (* ReferMatchPathFlag *)
   ignore_refer : list (list N);       (* IgnoreReferFileMap *)
   ignore_modules : list (list N);     (* IgnoreRequireSystemModule *)
-  main_dir : list N                   (* DirManager.mainDir, not empty *)
+  main_dir : list N;                  (* DirManager.mainDir, not empty *)
+  order_fixed : bool                  (* not a setting: which GetBestMatchReferFile is modelled - false: before
+                                         fixes/C09-deterministic-order.diff (any best-scored candidate), true: the
+                                         repaired one (the best-scored candidate with the least path) *)
 }.
 
 Record routcome := mk_rout {
@@ -145,7 +149,7 @@ Section Resolve.
       let p := complete_path (main_dir cfg) str_file in
       if disk p then found [p]
       else if exact_mode cfg then not_found
-      else match best_set cur str_file st with
+      else match best_set_fx (order_fixed cfg) cur str_file st with
            | [] => not_found
            | l => found l
            end
@@ -160,8 +164,8 @@ Section Resolve.
         then found [complete_path (main_dir cfg) (str_new ++ init_tail)]
         else not_found
       else
-        match best_set cur str_new st with
-        | [] => match best_set cur (str_new ++ init_tail) st with
+        match best_set_fx (order_fixed cfg) cur str_new st with
+        | [] => match best_set_fx (order_fixed cfg) cur (str_new ++ init_tail) st with
                 | [] => not_found
                 | l => found l
                 end
@@ -189,7 +193,7 @@ Section Resolve.
     match items with
     | [] => [None]
     | it :: rest =>
-      let bs := best_set cur it st in
+      let bs := best_set_fx (order_fixed cfg) cur it st in
       map (fun c => Some (it, c)) (filter loaded bs)
       ++ (if forallb loaded bs && negb (is_nil bs) then [] else open_outcomes cur rest)
     end.
